@@ -370,13 +370,6 @@ theorem foldl_sseLine_dead (d : Bytes → Bytes) (ls : List (Bytes × Term)) (s 
 
 /-! ### chunked coding: hex, size line, decode of encode -/
 
-def hexChar (d : Nat) : Nat := if d < 10 then 48 + d else 87 + d
-
-/-- `"{0:x}".format(n)` -/
-def toHex (n : Nat) : Bytes := if n < 16 then [hexChar n] else toHex (n / 16) ++ [hexChar (n % 16)]
-termination_by n
-decreasing_by omega
-
 theorem hexVal_append (a b : Bytes) (acc : Nat) : hexVal (a ++ b) acc = hexVal b (hexVal a acc) := by
   induction a generalizing acc with
   | nil => rfl
@@ -770,5 +763,39 @@ theorem trailerDict_distinct (acc ts : List (Bytes × Bytes)) (hd : distinctName
       · simp at h; subst h; exact fun e => hd.1 q hq e.symm)
     simp only [trailerDict] at this
     rw [this]; simp
+
+
+/-! ### packChunk -/
+
+theorem toHex_length_le : ∀ (k n : Nat), 1 ≤ k → n < 16 ^ k → (toHex n).length ≤ k := by
+  intro k
+  induction k with
+  | zero => intro n h; omega
+  | succ k ih =>
+    intro n _ hn
+    rw [toHex]
+    by_cases h : n < 16
+    · simp [h]
+    · simp only [h, if_false, List.length_append, List.length_cons, List.length_nil]
+      have hk : 1 ≤ k := by
+        cases k with
+        | zero => simp at hn; omega
+        | succ k => omega
+      have : n / 16 < 16 ^ k := by
+        rw [Nat.pow_succ] at hn
+        exact Nat.div_lt_of_lt_mul (by omega)
+      have := ih (n / 16) hk this
+      omega
+
+theorem packChunk_eq_encChunk (p : Bytes) : packChunk p = encChunk (p, []) := by
+  simp [packChunk, encChunk, CRLF]
+
+theorem packAll_eq_encode (pieces : List Bytes) : packAll pieces = encode (pieces.map fun p => (p, [])) [] [] := by
+  have h0 : packChunk [] = toHex 0 ++ [] ++ CRLF ++ [] ++ CRLF := by simp [packChunk, CRLF]
+  have h1 : (pieces.map packChunk) = (pieces.map fun p => (p, ([] : Bytes))).map encChunk := by
+    simp [List.map_map, Function.comp_def, packChunk_eq_encChunk]
+  unfold packAll encode
+  rw [h0, h1]
+  simp [CRLF]
 
 end Hio.Http
